@@ -3,7 +3,7 @@
    All theorems are for EVERY schedule (list of events), every queue, pop count, number of jobs and workers. *)
 From Coq Require Import List ZArith Bool Arith Permutation.
 Import ListNotations.
-Require Import DH.C17_Queue.Model DH.C17_Queue.Lemmas DH.C17_Queue.Lemmas2 DH.C17_Queue.Check DH.C17_Queue.Lemmas3 DH.C17_Queue.Lemmas4 DH.C17_Queue.Lemmas5 DH.C17_Queue.Lemmas6.
+Require Import DH.C17_Queue.Model DH.C17_Queue.Lemmas DH.C17_Queue.Lemmas2 DH.C17_Queue.Check DH.C17_Queue.Lemmas3 DH.C17_Queue.Lemmas4 DH.C17_Queue.Lemmas5 DH.C17_Queue.Lemmas6 DH.C17_Queue.Lemmas7.
 
 Theorem C17_conservation : forall q0 pop njobs W sched,
   let s := qrun pop (qinit q0 njobs W) sched in Permutation (queue s ++ held s) q0.
@@ -192,6 +192,15 @@ Theorem C17_ext_refines_mechanism : forall q0 pop W n sched, 1 <= pop ->
   proj (xrun pop W false (xstep pop W false (xinit pop q0) (XSubmit n)) (map emb sched)) = qrun pop (qinit q0 n W) sched.
 Proof. intros. apply ext_refines_mechanism. assumption. Qed.
 Print Assumptions C17_ext_refines_mechanism.
+
+(* the deterministic driver used by the step-wise streams: after [xsettle] (one pass of take j; admit j in id order) no job can
+   take resources or be admitted any more, from every reachable state - the model state that is compared with the
+   implementation is the quiescent one *)
+Theorem C17_settle_quiescent : forall q0 pop W thr sched,
+  let s := xsettle pop W thr (xrun pop W thr (xinit pop q0) sched) in
+  forall j, xenabled s (XTake j) = false /\ xenabled s (XRun j) = false.
+Proof. intros q0 pop W thr sched s. apply (settle_quiescent q0 pop W thr). apply xinv_run, xinv_init. Qed.
+Print Assumptions C17_settle_quiescent.
 
 (* the final check of runs with failed / cancelled jobs: what a verdict 0 guarantees *)
 Theorem C17_final_okx_sound : forall q0 njobs nometa meta fq s, final_okx q0 njobs nometa meta fq s = 0 ->
